@@ -88,6 +88,6 @@ SPEC = {
         "Go map iteration visits every key exactly once (OrdersOK); the order itself is arbitrary",
         "no region has a peer on a tombstone store (PD buries a store only when it holds no peer): needed for the "
         "forced-leader clause only",
-        "label keys and values are lower-case ASCII",
+        "label keys and values are ASCII: strings.EqualFold is modelled as ASCII case folding (store label keys are generated in mixed case)",
     ],
 }
